@@ -534,16 +534,16 @@ func checkArity(p *an.Prog, r *an.Run) {
 			bad = append(bad, failPropagates(p, pp, c)...)
 		}
 	}
-	// no success ahead of the checks: a successful return either follows the opening-bracket test of the decoder, or
-	// is the "no params at all" case decided from the raw params alone (absent / null); anything else (e.g. an early
-	// return for methods without parameters) lets surplus or wrongly shaped params through unchecked
+	// no success ahead of the checks: every successful return lies past the decoder's opening-bracket test and therefore
+	// past the fill loop that refuses missing required arguments. An early "no params at all" success (absent or null
+	// params) hands Method.Call zero arguments for a method that declares some: the call is refused there, but as an
+	// internal error (-32603), not as invalid params — "too few" has to be answered with -32602 whatever its spelling
 	var tokCall ssa.Instruction
 	for _, c := range an.Calls(pp, false) {
 		if f := an.CallObj(c); f != nil && f.Name() == "Token" && tokCall == nil {
 			tokCall = c.(ssa.Instruction)
 		}
 	}
-	rawPrm := pp.Params[0]
 	an.AllInstrs(pp, func(in ssa.Instruction) {
 		ret, ok := in.(*ssa.Return)
 		if !ok || (pp.Recover != nil && ret.Block() == pp.Recover) {
@@ -555,41 +555,9 @@ func checkArity(p *an.Prog, r *an.Run) {
 		if tokCall != nil && an.Dominates(tokCall, ret) {
 			return
 		}
-		okRaw := false
-		for _, c := range an.ControllingIfs(ret.Block()) {
-			d := p.Derives(0, c.If.Cond)
-			if d.HasParam(rawPrm) && !d.HasParam(typesPrm) {
-				okRaw = true
-			} else {
-				okRaw = false
-				break
-			}
-		}
-		if !okRaw {
-			// the no-args return sits behind "len(raw)==0 || raw=="null"": it is reached from both tests' true edges,
-			// so it has no single controlling branch; accept it when every predecessor test reads only the raw params
-			okRaw = true
-			nPred := 0
-			for _, pb := range ret.Block().Preds {
-				if len(pb.Instrs) == 0 {
-					continue
-				}
-				if iff, isIf := pb.Instrs[len(pb.Instrs)-1].(*ssa.If); isIf {
-					nPred++
-					d := p.Derives(0, iff.Cond)
-					if !d.HasParam(rawPrm) || d.HasParam(typesPrm) {
-						okRaw = false
-					}
-				} else {
-					okRaw = false
-				}
-			}
-			if nPred == 0 {
-				okRaw = false
-			}
-		}
-		if !okRaw {
-			bad = append(bad, "a success return at "+p.Pos(ret.Pos())+" is reachable without the params having been inspected (only absent or null params may skip the checks)")
+		okNone := false // no early success at all: a zero-parameter method called with surplus params must be refused too
+		if !okNone {
+			bad = append(bad, "a success return at "+p.Pos(ret.Pos())+" is reachable without the params having been decoded and the required arguments counted: absent or null params for a method that declares parameters are then refused later as an internal error (-32603) instead of invalid params (-32602)")
 		}
 	})
 	// every success return hands back len(types) values: the fill loop runs to len(types)
